@@ -31,3 +31,54 @@ package preempt
 //@   ensures [notSelf] result ==> job.UID != preemptor.UID
 //@   ensures [minRuntimeFilter] result ==> framework.preemptVictimOK(ssn, preemptor, job)
 //@ end
+
+// ---- exec2: the per-preemptor attempt and the Execute loop (C05 / C06 / C03 / C10) ------------------------
+//@ import common_info "github.com/NVIDIA/KAI-scheduler/pkg/scheduler/api/common_info"
+//@ define sessionJobsOK(ssn *framework.Session) bool = (forall k in ssn.ClusterInfo.PodGroupInfos :: podgroup_info.allTasksOK(ssn.ClusterInfo.PodGroupInfos[k]) && podgroup_info.setsOK(ssn.ClusterInfo.PodGroupInfos[k])) && (forall q in ssn.ClusterInfo.Queues :: ssn.ClusterInfo.Queues[q] != nil)
+
+// Glue around solvers.(*JobSolver).Solve. ASSUMED (trusted), see the note.
+// C06: "Every such eviction is committed together with the bind or nomination of the workload it was made
+// for": the statement handed back with success is the solver's statement and meets the preconditions of
+// (*Statement).Commit. The ghost mark common.failedAttempt records the outcome for the caller's table.
+//@ func attemptToPreemptForPreemptor
+//@   props C05 C06 C03
+//@   trusted
+//@   note not verified: [successIsCommittable] is not derivable from the contract of (*JobSolver).Solve (its result0 is computed from the job's counters after whole-heap havocs; "solved ==> the returned statement is the open, well-formed, flat log of the last prefix" needs the unmechanised exact-restoration argument of C13). [outcomeRecorded] only defines the ghost mark.
+//@   requires ssn != nil && preemptor != nil
+//@   modifies *
+//@   ensures [successIsCommittable] result0 ==> result1 != nil && framework.commitReady(result1) && framework.wfLog(result1) && framework.flatLog(result1)
+//@   ensures [outcomeRecorded] common.failedAttempt(preemptor) == !result0
+//@ end
+
+// C05: "a pending workload obtains capacity by preempting a strictly lower-priority preemptible workload of its
+// own queue, within one cycle" / "a wrong job-signature shortcut ... silently starves workloads". Preempt victims
+// are jobs of the PREEMPTOR'S OWN QUEUE (buildFilterFuncForPreempt [sameQueue]), so that a job failed says
+// something only about later jobs of the SAME queue: a popped job is skipped without an attempt only on the answer
+// of a table of failed jobs that holds jobs of ITS OWN queue only - precondition [ownQueueScope] of
+// common.(*MinimalJobRepresentatives).IsEasierToSchedule / UpdateRepresentative (no table of this action is
+// declared cluster-wide), proved at both call sites from the loop invariants below, which speak about EVERY
+// per-queue directory of tables this run of the action created (no local variable is named):
+//   [tablesWellFormed] every table registered under a queue is well-formed,
+//   [perQueueScope]    and holds only jobs of that queue,
+//   [tablesSeparate]   tables of different queues share nothing (recording a failure in one leaves the others alone).
+// A skipped job lost against a stored failed job of its own signature AND its own queue (IsEasierToSchedule
+// [falseNamesStoredRepresentative] [skipOnlyWithinScope]); every other popped job is handed to
+// attemptToPreemptForPreemptor.
+// C06: "Every such eviction is committed together with the bind or nomination of the workload it was made for":
+// statement.Commit() is reached only with the statement a successful attempt returned (preconditions of Commit,
+// proved at the call site); after a failed attempt nothing is committed and only then is the job recorded
+// (precondition [recordsOnlyFailedJobs] of UpdateRepresentative).
+// C10: no panic on any path (a non-empty order yields a job; the statement is dereferenced only after success).
+//@ func (*preemptAction).Execute
+//@   props C05 C06 C03 C10
+//@   usestable
+//@   requires ssn != nil && ssn.ClusterInfo != nil && ssn.Config != nil && sessionJobsOK(ssn)
+//@   requires [queueDepthNotZero] ssn.GetJobsDepth("preempt") != 0
+//@   modifies *
+//@   loop 1
+//@     modifies *
+//@     invariant [tablesWellFormed] forall mm map[common_info.QueueID]*common.MinimalJobRepresentatives, q common_info.QueueID :: fresh(mm) && q in mm ==> common.repsWF(mm[q])
+//@     invariant [perQueueScope] forall mm map[common_info.QueueID]*common.MinimalJobRepresentatives, q common_info.QueueID :: fresh(mm) && q in mm ==> common.repsAllInQueue(mm[q], q)
+//@     invariant [tablesSeparate] forall mm map[common_info.QueueID]*common.MinimalJobRepresentatives, q1 common_info.QueueID, q2 common_info.QueueID :: fresh(mm) && q1 in mm && q2 in mm && q1 != q2 ==> mm[q1].representatives != mm[q2].representatives
+//@ end
+// ---- end exec2 ----
